@@ -238,6 +238,246 @@ theorem retry_after_panic_takes_effect (custom : R → Bool) (s : MState R) (res
     exact this
   · rw [loadRes_outcome] at h; split_ifs at h
 
+/-! ### histories in which the generator table changes
+
+`GOp.mode g` is the op that changes the table (what the custom generator does from now on); loads are executed by
+`loadAllG` / `loadResG` — the functions the driver runs — under the mode in force.  `runE` also records the loads whose
+build did not panic (`executed`): a panicking load returns `(true, err)` to its caller, so this list is observable. -/
+
+inductive GOp (R : Type)
+  | load (o : Op R)
+  | mode (g : GenMode)
+
+def opG (M : RuleMod R) (custom : R → Bool) (g : GenMode) (s : MState R) : Op R → MState R × Outcome
+  | .loadAll rules => loadAllG M custom g s rules
+  | .loadRes res rules => loadResG M custom g s res rules
+  | .clearAll => loadAllG M custom g s []
+  | .clearRes res => loadResG M custom g s res []
+
+structure GState (R : Type) where
+  st : MState R
+  mode : GenMode
+  executed : List (Op R)
+
+def stepE (M : RuleMod R) (custom : R → Bool) (x : GState R) : GOp R → GState R
+  | .mode g => { x with mode := g }
+  | .load o =>
+    if (opG M custom x.mode x.st o).2 = .changedErr then { x with st := (opG M custom x.mode x.st o).1 }
+    else { x with st := (opG M custom x.mode x.st o).1, executed := x.executed ++ [o] }
+
+def runE (M : RuleMod R) (custom : R → Bool) (ops : List (GOp R)) : GState R :=
+  ops.foldl (stepE M custom) ⟨MState.init, .ok, []⟩
+
+def rulesOf : Op R → List (Option R)
+  | .loadAll rules => rules
+  | .loadRes _ rules => rules
+  | _ => []
+
+/-- outside `generator-error-swallowed`: no load issued while the custom generator returns errors hands over a valid
+    rule of the custom kind (the mode in force at each load is determined by the history itself) -/
+def NoFailedBuild (M : RuleMod R) (custom : R → Bool) : GenMode → List (GOp R) → Prop
+  | _, [] => True
+  | _, .mode g :: ops => NoFailedBuild M custom g ops
+  | g, .load o :: ops =>
+    (g = .fail → ∀ r, some r ∈ rulesOf o → M.valid r = true → custom r = false) ∧ NoFailedBuild M custom g ops
+
+theorem opG_err_state (custom : R → Bool) (g : GenMode) (s : MState R) (o : Op R)
+    (h : (opG M custom g s o).2 = .changedErr) : (opG M custom g s o).1 = s := by
+  have hA : ∀ rules, (loadAllG M custom g s rules).2 = .changedErr → (loadAllG M custom g s rules).1 = s := by
+    intro rules h
+    unfold loadAllG at h ⊢
+    split_ifs at h ⊢ with hc
+    · rfl
+    · rcases loadAll_outcome (withGen M custom g) s rules with h' | h' <;> rw [h'] at h <;> cases h
+  have hR : ∀ res rules, (loadResG M custom g s res rules).2 = .changedErr → (loadResG M custom g s res rules).1 = s := by
+    intro res rules h
+    unfold loadResG at h ⊢
+    split_ifs at h ⊢ with hc
+    · rfl
+    · rw [loadRes_outcome] at h; split_ifs at h
+  cases o with
+  | loadAll rules => exact hA rules h
+  | loadRes res rules => exact hR res rules h
+  | clearAll => exact hA [] h
+  | clearRes res => exact hR res [] h
+
+/-- a load that did not panic, issued outside the finding's region, is the plain load of the fixed-table model -/
+theorem opG_eq_step (custom : R → Bool) (g : GenMode) (s : MState R) (o : Op R)
+    (hne : (opG M custom g s o).2 ≠ .changedErr)
+    (hs : g = .fail → ∀ r, some r ∈ rulesOf o → M.valid r = true → custom r = false) :
+    (opG M custom g s o).1 = (step M s o).1 := by
+  have hA : ∀ rules, (loadAllG M custom g s rules).2 ≠ .changedErr →
+      (g = .fail → ∀ r, some r ∈ rules → M.valid r = true → custom r = false) →
+      (loadAllG M custom g s rules).1 = (loadAll M s rules).1 := by
+    intro rules hne hs
+    unfold loadAllG at hne ⊢
+    split_ifs at hne ⊢ with hc
+    · exact absurd rfl hne
+    · by_cases hg : g = .fail
+      · rw [loadAll_withGen custom g s rules (hs hg)]
+      · rw [withGen_eq custom hg]
+  have hR : ∀ res rules, (loadResG M custom g s res rules).2 ≠ .changedErr →
+      (g = .fail → ∀ r, some r ∈ rules → M.valid r = true → custom r = false) →
+      (loadResG M custom g s res rules).1 = (loadRes M s res rules).1 := by
+    intro res rules hne hs
+    unfold loadResG at hne ⊢
+    split_ifs at hne ⊢ with hc
+    · exact absurd rfl hne
+    · by_cases hg : g = .fail
+      · rw [loadRes_withGen custom g s res rules (hs hg)]
+      · rw [withGen_eq custom hg]
+  cases o with
+  | loadAll rules => exact hA rules hne hs
+  | loadRes res rules => exact hR res rules hne hs
+  | clearAll => exact hA [] hne (fun _ r hr => by simp at hr)
+  | clearRes res => exact hR res [] hne (fun _ r hr => by simp at hr)
+
+/-- **reduction**: for every interleaving of loads and generator-mode changes outside `generator-error-swallowed`, the
+    manager state is the state of the fixed-table model after exactly the loads whose build did not panic -/
+theorem runE_eq_run_executed (custom : R → Bool) (ops : List (GOp R)) (h : NoFailedBuild M custom .ok ops) :
+    (runE M custom ops).st = run M (runE M custom ops).executed := by
+  have gen : ∀ (ops : List (GOp R)) (x : GState R), NoFailedBuild M custom x.mode ops → x.st = run M x.executed →
+      (ops.foldl (stepE M custom) x).st = run M (ops.foldl (stepE M custom) x).executed := by
+    intro ops
+    induction ops with
+    | nil => intro x _ hx; exact hx
+    | cons op ops ih =>
+      intro x hn hx
+      rw [List.foldl_cons]
+      cases op with
+      | mode g => exact ih _ hn hx
+      | load o =>
+        obtain ⟨h1, h2⟩ := hn
+        by_cases he : (opG M custom x.mode x.st o).2 = .changedErr
+        · have e : stepE M custom x (.load o) = { x with st := (opG M custom x.mode x.st o).1 } := by simp [stepE, he]
+          rw [e]
+          refine ih { x with st := (opG M custom x.mode x.st o).1 } h2 ?_
+          show (opG M custom x.mode x.st o).1 = run M x.executed
+          rw [opG_err_state custom _ _ _ he]; exact hx
+        · have e : stepE M custom x (.load o) =
+              { x with st := (opG M custom x.mode x.st o).1, executed := x.executed ++ [o] } := by simp [stepE, he]
+          rw [e]
+          refine ih { x with st := (opG M custom x.mode x.st o).1, executed := x.executed ++ [o] } h2 ?_
+          show (opG M custom x.mode x.st o).1 = run M (x.executed ++ [o])
+          rw [opG_eq_step custom _ _ _ he h1, run_snoc, hx]
+  exact gen ops _ h rfl
+
+/-- **enforced = valid rules of the latest load whose build did not panic** — history level, arbitrary interleavings of
+    loads and generator-mode changes, outside `generator-error-swallowed` -/
+theorem enforced_eq_valid_latest_modes (hM : Lawful M) (custom : R → Bool) (ops : List (GOp R))
+    (h : NoFailedBuild M custom .ok ops) (k : String) :
+    (runE M custom ops).st.enf k =
+      (((latest M (runE M custom ops).executed k).filterMap id).filter (built M k)).map M.norm := by
+  rw [runE_eq_run_executed custom ops h]; exact enforced_eq_valid_latest hM _ k
+
+/-- … and the getters report those rules (up to `sim`), every enforced rule is valid -/
+theorem getters_eq_enforced_modes (hM : Lawful M) (hp : M.pubValid = false) (custom : R → Bool) (ops : List (GOp R))
+    (h : NoFailedBuild M custom .ok ops) (k : String) :
+    List.Forall₂ (fun a b => M.sim a b = true) (getRes (runE M custom ops).st k) ((runE M custom ops).st.enf k) := by
+  rw [runE_eq_run_executed custom ops h]; exact getters_eq_enforced hM hp _ k
+
+theorem invalid_never_enforced_modes (hM : Lawful M) (custom : R → Bool) (ops : List (GOp R))
+    (h : NoFailedBuild M custom .ok ops) (k : String) (r : R) (hr : r ∈ (runE M custom ops).st.enf k) : M.valid r = true := by
+  rw [runE_eq_run_executed custom ops h] at hr; exact (invalid_never_enforced hM _ k r hr).1
+
+/-- the side condition is satisfiable with panics and errors in the history: panicking builds are unrestricted -/
+example : NoFailedBuild isoMod (fun _ => true) .ok
+    [.mode .panic, .load (.loadAll [some { id := "", res := "i", metric := 0, th := 1 }]), .mode .fail, .load (.clearRes "i"), .mode .ok] := by
+  simp [NoFailedBuild, rulesOf]
+
+/-! #### inside `generator-error-swallowed`: what exactly the as-is model does -/
+
+theorem buildReuse_fail (custom : R → Bool) (k : String) (rules : List R) :
+    ∀ old, (∀ r ∈ rules, custom r = true → ∀ o ∈ old, M.equals o r = false) →
+      buildReuse (withGen M custom .fail) k rules old = buildReuse M k (rules.filter fun r => !custom r) old := by
+  induction rules with
+  | nil => intro old _; rfl
+  | cons r rs ih =>
+    intro old h
+    have hrs : ∀ old' : List R, (∀ x ∈ old', x ∈ old) → ∀ r' ∈ rs, custom r' = true → ∀ o ∈ old', M.equals o r' = false :=
+      fun old' hsub r' hr' hc o ho => h r' (List.mem_cons_of_mem _ hr') hc o (hsub o ho)
+    have hnone : custom r = true → findEq M r old = none := by
+      intro hc
+      cases hf : findEq M r old with
+      | none => rfl
+      | some p =>
+        obtain ⟨o, rest⟩ := p
+        obtain ⟨hm, he, _⟩ := findEq_some hf
+        rw [h r List.mem_cons_self hc o hm] at he; cases he
+    by_cases hc : custom r = true
+    · have hf := hnone hc
+      rw [List.filter_cons_of_neg (by simp [hc])]
+      conv_lhs => unfold buildReuse
+      rw [findEq_withGen, hf]
+      have hb : (withGen M custom .fail).buildable r = false := by simp [withGen, hc]
+      by_cases hs : (M.scopedRes && M.res r != k) = true
+      · have hs' : ((withGen M custom .fail).scopedRes && (withGen M custom .fail).res r != k) = true := hs
+        rw [if_pos hs']; exact ih old (hrs old fun _ hx => hx)
+      · have hs' : ¬ ((withGen M custom .fail).scopedRes && (withGen M custom .fail).res r != k) = true := hs
+        rw [if_neg hs']; simp only [hb]
+        exact ih old (hrs old fun _ hx => hx)
+    · simp only [Bool.not_eq_true] at hc
+      rw [List.filter_cons_of_pos (by simp [hc])]
+      unfold buildReuse
+      rw [findEq_withGen, dropStat_withGen]
+      have hb : (withGen M custom .fail).buildable r = M.buildable r := by simp [withGen, hc]
+      by_cases hs : (M.scopedRes && M.res r != k) = true
+      · have hs' : ((withGen M custom .fail).scopedRes && (withGen M custom .fail).res r != k) = true := hs
+        rw [if_pos hs', if_pos hs]; exact ih old (hrs old fun _ hx => hx)
+      · have hs' : ¬ ((withGen M custom .fail).scopedRes && (withGen M custom .fail).res r != k) = true := hs
+        rw [if_neg hs', if_neg hs]
+        cases hf : findEq M r old with
+        | some p =>
+          obtain ⟨o, rest⟩ := p
+          dsimp only
+          rw [ih rest (hrs rest (findEq_some hf).2.2)]
+        | none =>
+          dsimp only
+          simp only [hb]
+          by_cases hbr : M.buildable r = true
+          · simp only [hbr, if_true]
+            rw [ih _ (hrs _ (dropStat_subset r old))]
+            rfl
+          · simp only [hbr, if_false, Bool.false_eq_true]
+            rw [ih old (hrs old fun _ hx => hx)]
+
+/-- **inside the finding**: a per-resource load executed while the custom generator returns errors installs the
+    controllers of the list *without its custom rules* (here: none of them equal to a controller already in force, so the
+    generator is really asked), yet caches the *whole* list … -/
+theorem fail_load_installs_rest (custom : R → Bool) (s : MState R) (res : String) (rules : List (Option R))
+    (h0 : res ≠ "") (h1 : rules ≠ []) (hc : s.cache res ≠ rules)
+    (hq : ∀ r ∈ validList M rules, custom r = true → ∀ o ∈ s.bound res, M.equals o r = false) :
+    (loadResG M custom .fail s res rules).2 = .changed ∧
+    (loadResG M custom .fail s res rules).1.bound res =
+      buildReuse M res ((validList M rules).filter fun r => !custom r) (s.bound res) ∧
+    (loadResG M custom .fail s res rules).1.cache res = rules.map (normIn (withGen M custom .fail) res) := by
+  have e : loadResG M custom .fail s res rules = loadRes (withGen M custom .fail) s res rules := by
+    unfold loadResG; simp
+  rw [e, loadRes_changed h0 h1 hc]
+  refine ⟨rfl, ?_, ?_⟩
+  · show upd s.bound res _ res = _
+    rw [upd_same, validList_withGen, buildReuse_fail custom res _ _ hq]
+  · show upd s.cache res _ res = _
+    rw [upd_same]
+
+/-- … so that the identical retry, after the generator recovered, is short-circuited: it reports "unchanged" and the
+    dropped rules stay out of force (for lists no constructor normalised, as in `identical_reload_unchanged_res_partial`) -/
+theorem retry_after_fail_short_circuited (custom : R → Bool) (s : MState R) (res : String) (rules : List (Option R))
+    (h0 : res ≠ "") (h1 : rules ≠ []) (hn : rules.map (normIn (withGen M custom .fail) res) = rules) :
+    (loadResG M custom .ok (loadResG M custom .fail s res rules).1 res rules).2 = .unchanged ∧
+    (loadResG M custom .ok (loadResG M custom .fail s res rules).1 res rules).1 = (loadResG M custom .fail s res rules).1 := by
+  have e : ∀ t, loadResG M custom .fail t res rules = loadRes (withGen M custom .fail) t res rules := by
+    intro t; unfold loadResG; simp
+  have e' : ∀ t, loadResG M custom .ok t res rules = loadRes (withGen M custom .ok) t res rules := by
+    intro t; unfold loadResG; simp
+  have hcache : (loadResG M custom .fail s res rules).1.cache res = rules := by
+    rw [e]
+    by_cases hc : s.cache res = rules
+    · rw [loadRes_unchanged h0 h1 hc]; exact hc
+    · rw [loadRes_changed h0 h1 hc]; show upd s.cache res _ res = _; rw [upd_same, hn]
+  rw [e', loadRes_unchanged h0 h1 hcache]
+  exact ⟨rfl, rfl⟩
+
 /-- the property's last clause, at full strength (false on the pinned tree: see the two witnesses below) -/
 def identical_reload_unchanged_statement (M : RuleMod R) : Prop :=
   (∀ (ops : List (Op R)) (rules : List (Option R)),
